@@ -129,4 +129,26 @@ theorem continueGame_cases (s : State) (e : Bool) :
   | none => exact Or.inl ⟨rfl, rfl⟩
   | some r => exact Or.inr ⟨r.1, r.2, rfl, rfl⟩
 
+/-- a turn of the retry loop: it gives up (nothing changes), is refused again (nothing changes), or — the table neither
+closed nor released, no hand status, blinds set and not a break — is `openGame` + `startGame` again -/
+theorem retryOpen_cases (s : State) (ch : Option Int) (ok : Bool) :
+    retryOpen s ch ok = (s, .nothing) ∨ retryOpen s ch ok = (s, .refused) ∨
+    (s.released = false ∧ s.status ≠ .closed ∧ inHandStatus s.status = false ∧ s.blind.isSet = true ∧
+      s.blind.isBreaking = false ∧ retryOpen s ch ok = openCore s ch ok) := by
+  unfold retryOpen
+  by_cases h0 : (s.released || s.status == .closed) = true
+  · simp [h0]
+  · by_cases h1 : inHandStatus s.status = true
+    · simp [h0, h1]
+    · by_cases h2 : s.blind.isSet = true
+      · by_cases h3 : s.blind.isBreaking = true
+        · simp [h0, h1, h2, h3]
+        · right; right
+          have hr : s.released = false ∧ s.status ≠ .closed := by
+            simp only [Bool.or_eq_true, beq_iff_eq, not_or] at h0
+            exact ⟨by simpa using h0.1, h0.2⟩
+          refine ⟨hr.1, hr.2, by simpa using h1, h2, by simpa using h3, ?_⟩
+          simp [h0, h1, h2, h3]
+      · simp [h0, h1, h2]
+
 end TB
